@@ -5,6 +5,9 @@ From Coq Require Import List ZArith Bool.
 Import ListNotations.
 From Zn.model Require Import Lexer Ast Parser.
 From Zn.proofs Require Import FrontCompleteProofs.
+From Zn.proofs Require ExprPrecProofs ExprPrecSpacesProofs.
+Module EP := ExprPrecProofs.
+Module EPS := ExprPrecSpacesProofs.
 Open Scope Z_scope.
 
 (* Any tree the parser returns is complete: every construct has all the parts the grammar requires
@@ -17,6 +20,55 @@ Print Assumptions C03_complete.
 Theorem C03_complete_productions : forall fuel n st x st', pre n -> parse fuel n st = Ok x st' -> post n x.
 Proof. exact parse_complete. Qed.
 Print Assumptions C03_complete_productions.
+
+(* ---- operator precedence and associativity: the parser returns THE PRESCRIBED tree, for every operator tree ----
+   [EP.op_expr e]: e is built from identifier leaves with + - * / | %, the comparisons (either spelling) and 且 / 或, nested
+   to any depth.  [EP.print_expr w e] is its text with braces { } exactly where the documented levels require them (a child of a
+   looser level; a right operand of the same level: every level, the comparisons included, associates from left to right —
+   manual chapter 3, BNF), single spaces between tokens.  Compiling that text, through the character-level lexer and the whole
+   parser, yields the program consisting of exactly that tree; at the front end's own fuel and at every sufficient fuel. *)
+Theorem C03_precedence_all_trees : forall w e, EP.op_expr e = true ->
+  exists src, EP.print_expr w e = Some src /\
+    compile (default_fuel src) src = OTree (EP.one_expression e) [mkLine 0 0] GenFrontTokens.g_IndentUnknown /\
+    compile_encode src = [[1; 0; 0; 0]; enc_lines [mkLine 0 0]; enc_program (EP.one_expression e)].
+Proof. exact EP.C03_precedence_all_trees_default. Qed.
+Print Assumptions C03_precedence_all_trees.
+
+Theorem C03_precedence_any_fuel : forall w e, EP.op_expr e = true ->
+  exists src, EP.print_expr w e = Some src /\
+    forall fuel, (EP.fuel_expr w e <= fuel)%nat ->
+      compile fuel src = OTree (EP.one_expression e) [mkLine 0 0] GenFrontTokens.g_IndentUnknown.
+Proof. exact EP.C03_precedence_all_trees. Qed.
+Print Assumptions C03_precedence_any_fuel.
+
+(* token level, in ANY parser state and before any following token that cannot continue the expression: no restriction on
+   the leaves, every nesting depth *)
+Theorem C03_precedence_tokens : forall s fuel st st', EP.wf s = true -> (EP.cfuel s <= fuel)%nat ->
+  EP.feeds (EP.show s) st st' -> EP.stops 6 st' -> parse_expression fuel st = Ok (EP.ast s) st'.
+Proof. exact EP.parse_show_tokens. Qed.
+Print Assumptions C03_precedence_tokens.
+
+(* optional and multiple spaces: any gap that is a run of white space, or no gap at all where the lexer can still cut the two
+   tokens apart (before / after keyword operators, comparison marks, | and braces), gives the same tree *)
+Theorem C03_precedence_any_spacing : forall s gs, EP.wf s = true -> EP.leaves_ok s = true -> EPS.spacing_ok s gs = true ->
+  compile (default_fuel (EPS.showg s gs)) (EPS.showg s gs)
+  = OTree (EP.one_expression (EP.ast s)) [mkLine 0 0] GenFrontTokens.g_IndentUnknown.
+Proof. exact EPS.compile_show_spaces_default. Qed.
+Print Assumptions C03_precedence_any_spacing.
+
+(* more fuel never changes an answer: for every production, state and pair of fuels *)
+Theorem C03_fuel_monotone : forall f g src, (f <= g)%nat -> compile f src = OFuel \/ compile f src = compile g src.
+Proof. exact EP.compile_mono. Qed.
+Print Assumptions C03_fuel_monotone.
+
+Example C03_example_precedence :                               (* A + B * C - D  is  (A + (B * C)) - D *)
+  compile 200 [65; 32; 43; 32; 66; 32; 42; 32; 67; 32; 45; 32; 68]
+  = OTree (EP.one_expression (EArith 13 (EArith 12 (EId [65]) (EArith 14 (EId [66]) (EId [67]))) (EId [68]))) [mkLine 0 0] 0.
+Proof. vm_compute. reflexivity. Qed.
+Example C03_example_chained_comparison :                       (* A == B == C  is  {A == B} == C  (rejected before 8b988c3) *)
+  compile 400 [65; 32; 61; 61; 32; 66; 32; 61; 61; 32; 67]
+  = OTree (EP.one_expression (ELogic 4 (ELogic 4 (EId [65]) (EId [66])) (EId [67]))) [mkLine 0 0] 0.
+Proof. vm_compute. reflexivity. Qed.
 
 (* non-vacuity: programs are accepted with the prescribed tree; the half-built trees of the pinned parser are errors here *)
 (* 如果A：⏎    B⏎否则：⏎    C *)
